@@ -27,7 +27,7 @@ ASSUMPTIONS = ['reads are counted by the stream double (pv/core/streams.py)']
 BUDGET = {'quick': 100, 'thorough': 2400}
 MIN_NONTRIVIAL = {'quick': 1000, 'thorough': 10000}
 TECHNIQUE = 'exhaustive enumeration of short inputs + mutation-based property testing (Hypothesis) + coverage-guided fuzzing (atheris, thorough)'
-CFG = {'long_str_pct': 0, 'max_depth': 2, 'max_comps': 3}
+CFG = {'long_str_pct': 0, 'max_depth': 2, 'max_comps': 3, 'many_elems_pct': 0}
 DEPTH_BOUND = 24
 CODECS = ('BER', 'CER', 'DER')
 
